@@ -1268,10 +1268,17 @@ var (
 	c12MountPaths = []string{"m/", "m2/", "kv/", "deep/er/", "deep/est/", "a-b/", "ab/", "x1/", "sysx/", "cubbyholes/", "authx/", "identityx/", "team/eng/", "b/"}
 )
 
+// c12AfterBoot, when set, runs on the fresh core before any namespace exists
+// (used to switch on core options the shared boot helper has no field for).
+var c12AfterBoot func(v *vCore)
+
 // c12Build boots a core and generates a world: <= 6 namespaces on <= 3 levels
 // (some with their own seal), sibling / multi-segment / equally named mounts.
 func c12Build(t *testing.T, r *kit.Result, rng *kit.Rand, caseID string, transactional bool, cache ...bool) *c12World {
 	v := vBoot(t, vOpts{Transactional: transactional, Cache: len(cache) > 0 && cache[0]})
+	if c12AfterBoot != nil {
+		c12AfterBoot(v)
+	}
 	w := &c12World{t: t, v: v, r: r, rng: rng, caseID: caseID, canary: map[string]c12Owner{}}
 	w.root = &c12NS{Path: "", Name: ""}
 	w.nss = []*c12NS{w.root}
